@@ -183,6 +183,22 @@ def _case(case):
                     viol("hash-collision", f"{case['col']}[{idx}]:{how}",
                          "perturbing one data sample leaves the hash "
                          "unchanged")
+        # ... and on one and the same object that was hashed before its
+        # column is replaced through the column interface
+        for idx in case["indices"][::5]:
+            c = fresh()
+            ha = the_hash(c, {})
+            a = np.array(c[case["col"]], copy=True)
+            a[idx] = a[idx] * 1.01 if a[idx] != 0 else 1e-12
+            c[case["col"]] = a
+            hb = the_hash(c, {})
+            href = the_hash(fresh((case["col"], idx, "pct")), {})
+            if hb == ha or hb != href:
+                viol("hash-collision" if hb == ha else "hash-unequal",
+                     f"{case['col']}[{idx}]:same-object",
+                     "an object that was hashed, then had one sample of "
+                     f"'{case['col']}' replaced: hash {hb} (before {ha}; a "
+                     f"fresh object with the same data: {href})")
         return out, ("sample",)
     if kind == "repr":
         base = dict(BASES[case["base"]])
